@@ -424,6 +424,7 @@ package ro
 //@   props C17 C08
 //@   binds in done destination ctx
 //@   calls CompleteWithContext NextWithContext
+//@   params -
 //@   note every wait of the reader is one blocking select over the input channel and the teardown's done channel: it is never parked on the input alone, nor does it poll
 //@   track destination.* loop.* chselect chpoll chrecv.ANY
 //@   ensures [ends-by-completion-or-done|C17,C14] trace(loop.L0, chselect(in, done)) || trace(loop.L0, chselect(in, done), destination.CompleteWithContext(ctx))
@@ -439,6 +440,7 @@ package ro
 //@   props C17 C08
 //@   binds subscriberCtx destination size
 //@   calls NewSubscription NextWithContext recoverUnhandledError
+//@   params subscriberCtx destination
 //@   track chmake destination.* spawn.*
 //@   ensures [one-channel-of-the-configured-capacity-handed-out-once|C17,C08] trace(chmake(size), spawn.ANY, destination.NextWithContext(subscriberCtx, _))
 
@@ -447,6 +449,7 @@ package ro
 //@   props C17 C08
 //@   binds value ch destination
 //@   calls NewNotificationNext
+//@   params ctx value
 //@   track chsend.* chselect chpoll destination.* call.Once.Do
 //@   ensures [one-blocking-send-per-value|C17,C08] trace(chsend.ch(_, fields(0, value, _)))
 
@@ -455,6 +458,7 @@ package ro
 //@   props C17 C08
 //@   binds ctx err ch destination
 //@   calls CompleteWithContext NewNotificationError fn:closeChan
+//@   params ctx err
 //@   track chsend.* chselect chpoll destination.* call.Once.Do
 //@   ensures [terminal-sent-then-closed-then-completed|C17,C08] trace(chsend.ch(_, fields(1, _, err)), call.Once.Do, destination.CompleteWithContext(ctx))
 
@@ -463,6 +467,7 @@ package ro
 //@   props C17 C08
 //@   binds ctx ch destination
 //@   calls CompleteWithContext NewNotificationComplete fn:closeChan
+//@   params ctx
 //@   track chsend.* chselect chpoll destination.* call.Once.Do
 //@   ensures [terminal-sent-then-closed-then-completed|C17,C08] trace(chsend.ch(_, fields(2, _, _)), call.Once.Do, destination.CompleteWithContext(ctx))
 
@@ -478,6 +483,7 @@ package ro
 //@   props C17 C03 C14
 //@   binds subscriptions
 //@   calls Unsubscribe fn:closeChan
+//@   params -
 //@   track subscriptions.* call.Once.Do chclose.* chrecv.* chsend.* chselect chpoll
 //@   ensures [releases-upstream-then-closes-once|C17,C03,C14] trace(subscriptions.Unsubscribe(), call.Once.Do)
 //@   ensures [takes-nothing-out-of-the-channel|C17] count(chrecv.ANY) == 0 && count(chpoll) == 0 && count(chselect) == 0
@@ -491,6 +497,7 @@ package ro
 //@   props C08
 //@   binds bufferSize
 //@   calls NewSubscription fn:consumeUpstream fn:produceDownstream recoverUnhandledError
+//@   params subscriberCtx destination
 //@   maypanic
 //@   inline processNotificationWithContext
 //@   track chmake
@@ -501,6 +508,7 @@ package ro
 //@   props C08 C09
 //@   binds ctx value ch destination
 //@   calls NewNotificationNext T2
+//@   params ctx value
 //@   track chsend.* chselect chpoll destination.* call.Once.Do
 //@   ensures [one-blocking-send-per-value|C08] trace(chsend.ch(_, fields(ctx, fields(0, value, _))))
 
@@ -509,6 +517,7 @@ package ro
 //@   props C08 C09
 //@   binds ctx err ch destination
 //@   calls NewNotificationError T2 fn:stop
+//@   params ctx err
 //@   track chsend.* chselect chpoll destination.* call.Once.Do
 //@   ensures [terminal-queued-like-a-value-then-closed|C08] trace(chsend.ch(_, fields(ctx, fields(1, _, err))), call.Once.Do)
 
@@ -517,6 +526,7 @@ package ro
 //@   props C08 C09
 //@   binds ctx ch destination
 //@   calls NewNotificationComplete T2 fn:stop
+//@   params ctx
 //@   track chsend.* chselect chpoll destination.* call.Once.Do
 //@   ensures [terminal-queued-like-a-value-then-closed|C08] trace(chsend.ch(_, fields(ctx, fields(2, _, _))), call.Once.Do)
 
@@ -525,6 +535,7 @@ package ro
 //@   props C08 C09
 //@   binds ch destination
 //@   calls processNotificationWithContext
+//@   params -
 //@   maypanic
 //@   inline processNotificationWithContext
 //@   track chrecv.* destination.* loop.* spawn.*
@@ -732,6 +743,7 @@ package ro
 //@   props C16 C09
 //@   binds muQueue queue muNext destination
 //@   calls Lock Unlock processNotificationWithObserverAndContext
+//@   params -
 //@   maypanic
 //@   inline processNotificationWithObserverAndContext processNotificationWithContext
 //@   track destination.*
@@ -754,6 +766,7 @@ package ro
 //@   props C16 C09
 //@   binds destination ctx
 //@   calls CompleteWithContext Done NextWithContext
+//@   params -
 //@   track destination.* loop.* chselect chpoll chrecv.ANY ctx.Done
 //@   ensures [completes-when-told-to-stop|C16] trace(loop.L0, ctx.Done(), chselect, destination.CompleteWithContext(ctx))
 
@@ -891,6 +904,7 @@ package ro
 //@   props C04
 //@   binds predicate source1 source2
 //@   calls fn:predicate
+//@   params -
 //@   maypanic
 //@   track callfn.*
 //@   ensures [asks-once] !panics ==> count(callfn.predicate) == 1
@@ -939,6 +953,7 @@ package ro
 //@   props C05 C09
 //@   binds ctx mu values muEmit destination subscriptions
 //@   calls CompleteWithContext Lock Unlock Unsubscribe
+//@   params ctx
 //@   track destination.* subscriptions.*
 //@   ensures [a-drained-source-completes-the-output|C05,C09] len(old(values)) == 0 ==> trace(destination.CompleteWithContext(ctx), subscriptions.Unsubscribe())
 //@   ensures [a-finished-source-with-queued-values-keeps-the-others-subscribed|C05] len(old(values)) > 0 ==> trace()
@@ -949,6 +964,7 @@ package ro
 //@   props C05 C07 C09
 //@   binds ctx err destination subscriptions
 //@   calls ErrorWithContext Lock Unlock Unsubscribe
+//@   params ctx err
 //@   track destination.* subscriptions.*
 //@   ensures [error-ends-the-output-and-releases-the-others|C05,C09] trace(destination.ErrorWithContext(ctx, err), subscriptions.Unsubscribe())
 
@@ -983,6 +999,7 @@ package ro
 //@   props C05 C04
 //@   binds ctx mu valueA valueB muEmit destination completedA completedB
 //@   calls CompleteWithContext Lock NextWithContext T2 Unlock
+//@   params ctx
 //@   track destination.*
 //@   ensures [take-and-delivery-are-one-step-for-the-other-sources|C05] heldat(muEmit, destination.ANY) && notheldat(mu, destination.ANY)
 //@   ensures [no-tuple-until-every-queue-has-a-value|C05] !(len(old(valueA)) > 0 && len(old(valueB)) > 0) ==> trace()
@@ -995,6 +1012,7 @@ package ro
 //@   props C05 C04
 //@   binds ctx mu valueA valueB valueC muEmit destination completedA completedB completedC
 //@   calls CompleteWithContext Lock NextWithContext T3 Unlock
+//@   params ctx
 //@   track destination.*
 //@   ensures [take-and-delivery-are-one-step-for-the-other-sources|C05] heldat(muEmit, destination.ANY) && notheldat(mu, destination.ANY)
 //@   ensures [no-tuple-until-every-queue-has-a-value|C05] !(len(old(valueA)) > 0 && len(old(valueB)) > 0 && len(old(valueC)) > 0) ==> trace()
@@ -1007,6 +1025,7 @@ package ro
 //@   props C05 C04
 //@   binds ctx mu valueA valueB valueC valueD muEmit destination completedA completedB completedC completedD
 //@   calls CompleteWithContext Lock NextWithContext T4 Unlock
+//@   params ctx
 //@   track destination.*
 //@   ensures [take-and-delivery-are-one-step-for-the-other-sources|C05] heldat(muEmit, destination.ANY) && notheldat(mu, destination.ANY)
 //@   ensures [no-tuple-until-every-queue-has-a-value|C05] !(len(old(valueA)) > 0 && len(old(valueB)) > 0 && len(old(valueC)) > 0 && len(old(valueD)) > 0) ==> trace()
@@ -1019,6 +1038,7 @@ package ro
 //@   props C05 C04
 //@   binds ctx mu valueA valueB valueC valueD valueE muEmit destination completedA completedB completedC completedD completedE
 //@   calls CompleteWithContext Lock NextWithContext T5 Unlock
+//@   params ctx
 //@   track destination.*
 //@   ensures [take-and-delivery-are-one-step-for-the-other-sources|C05] heldat(muEmit, destination.ANY) && notheldat(mu, destination.ANY)
 //@   ensures [no-tuple-until-every-queue-has-a-value|C05] !(len(old(valueA)) > 0 && len(old(valueB)) > 0 && len(old(valueC)) > 0 && len(old(valueD)) > 0 && len(old(valueE)) > 0) ==> trace()
@@ -1031,6 +1051,7 @@ package ro
 //@   props C05 C04
 //@   binds ctx mu valueA valueB valueC valueD valueE valueF muEmit destination completedA completedB completedC completedD completedE completedF
 //@   calls CompleteWithContext Lock NextWithContext T6 Unlock
+//@   params ctx
 //@   track destination.*
 //@   ensures [take-and-delivery-are-one-step-for-the-other-sources|C05] heldat(muEmit, destination.ANY) && notheldat(mu, destination.ANY)
 //@   ensures [no-tuple-until-every-queue-has-a-value|C05] !(len(old(valueA)) > 0 && len(old(valueB)) > 0 && len(old(valueC)) > 0 && len(old(valueD)) > 0 && len(old(valueE)) > 0 && len(old(valueF)) > 0) ==> trace()
@@ -1184,6 +1205,7 @@ package ro
 //@   props C16 C04
 //@   binds ctx destination duration
 //@   calls CompleteWithContext Done Err ErrorWithContext NewTimer NextWithContext Stop
+//@   params ctx destination
 //@   track destination.* chselect chpoll call.NewTimer call.Timer.Stop
 //@   ensures [arms-one-timer-of-the-duration-and-waits-for-it|C16] called(call.NewTimer) && arg(call.NewTimer, 0) == duration && count(call.NewTimer) == 1 && count(chselect) == 1 && count(chpoll) == 0 && before(call.NewTimer, chselect)
 //@   ensures [emits-the-duration-only-after-the-wait|C16,C04] called(destination.NextWithContext) ==> before(chselect, destination.NextWithContext) && arg(destination.NextWithContext, 0) == ctx && arg(destination.NextWithContext, 1) == duration && before(destination.NextWithContext, destination.CompleteWithContext)
@@ -1194,6 +1216,7 @@ package ro
 //@   props C16 C09
 //@   binds destination ctx
 //@   calls CompleteWithContext Done NextWithContext Reset
+//@   params -
 //@   track destination.* loop.* chselect chpoll chrecv.ANY ctx.Done
 //@   ensures [completes-when-told-to-stop|C16] trace(loop.L0, ctx.Done(), chselect, destination.CompleteWithContext(ctx))
 
@@ -1236,6 +1259,7 @@ package ro
 //@   props C05 C04
 //@   binds ctx status values destination
 //@   calls Load LoadInt32 NextWithContext
+//@   params ctx
 //@   inline (*Pointer).Load
 //@   track destination.* loop.*
 //@   ensures [silent-once-done-or-failed|C05] loaded(status) <= 0 ==> trace()
@@ -1251,6 +1275,7 @@ package ro
 //@   props C05
 //@   binds status destination
 //@   calls CompleteWithContext LoadInt32
+//@   params ctx
 //@   track destination.*
 //@   ensures [completes-only-when-every-source-is-done|C05] iff(called(destination.CompleteWithContext), loaded(status) == 0)
 
@@ -1261,6 +1286,7 @@ package ro
 //@   props C04 C07 C09
 //@   binds factory destination ctx
 //@   calls CompleteWithContext ErrorWithContext NextWithContext TryCatchWithErrorValue
+//@   params -
 //@   maypanic
 //@   track callfn.factory destination.*
 //@   ensures [value-then-completion|C04] !panicked(factory) && res(callfn.factory, 1) == nil ==> trace(callfn.factory(), destination.NextWithContext(ctx, res(callfn.factory, 0)), destination.CompleteWithContext(ctx))
@@ -1284,6 +1310,7 @@ package ro
 //@   props C14 C09
 //@   binds subscriberCtx destination source
 //@   calls Err ErrorWithContext NewObserverWithContext SubscribeWithContext recoverUnhandledError
+//@   params subscriberCtx destination
 //@   track destination.* spawn.ANY source.SubscribeWithContext
 //@   ensures [an-already-cancelled-context-fails-at-once|C14] res(subscriberCtx.Err) != nil ==> trace(destination.ErrorWithContext(subscriberCtx, _))
 //@   ensures [the-context-is-watched-then-the-source-subscribed|C14] res(subscriberCtx.Err) == nil ==> trace(spawn.ANY, source.SubscribeWithContext(subscriberCtx, _))
@@ -1293,6 +1320,7 @@ package ro
 //@   props C14
 //@   binds destination
 //@   calls CompleteWithContext Done Err ErrorWithContext
+//@   params -
 //@   track destination.* chselect chpoll chrecv.ANY
 //@   ensures [waits-once-for-cancellation-or-teardown|C14] count(chselect) == 1 && count(chpoll) == 0 && count(chrecv.ANY) == 0
 //@   ensures [cancellation-becomes-an-error-teardown-a-completion|C14] count(destination.ErrorWithContext) + count(destination.CompleteWithContext) == 1
@@ -1305,6 +1333,7 @@ package ro
 //@   props C16
 //@   binds destination interval
 //@   calls NewTicker recoverUnhandledError
+//@   params ctx destination
 //@   requires interval > 0
 //@   maypanic
 //@   track destination.* call.NewTicker
@@ -1316,6 +1345,7 @@ package ro
 //@   props C16
 //@   binds ctx destination initial interval
 //@   calls NewTicker NewTimer NextWithContext Reset recoverUnhandledError
+//@   params ctx destination
 //@   requires initial >= 0 && interval > 0
 //@   maypanic
 //@   track destination.* call.NewTicker call.NewTimer
@@ -1329,6 +1359,7 @@ package ro
 //@   props C05
 //@   binds mu hasEmptyQueue muEmit sources values destination
 //@   calls CompleteWithContext Lock NextWithContext Unlock fn:hasEmptyQueue
+//@   params ctx
 //@   maypanic
 //@   trusted nopanic/index : the queues are indexed in range because len(values) == len(sources) and hasEmptyQueue() just reported every queue non-empty under the same lock; not proved here (quantified facts about a slice of slices)
 //@   track destination.* loop.*
@@ -1386,6 +1417,7 @@ package ro
 //@   props C05 C20
 //@   binds value muEmit window destination
 //@   calls Lock NextWithContext Unlock
+//@   params ctx value
 //@   maypanic
 //@   track window.* tmp.* destination.*
 //@   ensures [the-value-reaches-the-current-window-under-the-emit-lock|C05,C20] heldat(muEmit, tmp.ANY) && heldat(muEmit, destination.ANY)
@@ -1394,6 +1426,7 @@ package ro
 //@   props C05 C20
 //@   binds muEmit destination
 //@   calls ErrorWithContext Lock Unlock fn:flush
+//@   params ctx err
 //@   maypanic
 //@   track destination.*
 //@   ensures [the-last-window-is-closed-and-the-error-delivered-in-one-step|C05,C20] heldat(muEmit, destination.ANY) && called(destination.ErrorWithContext)
@@ -1402,6 +1435,7 @@ package ro
 //@   props C05 C20
 //@   binds muEmit destination
 //@   calls CompleteWithContext Lock Unlock fn:flush
+//@   params ctx
 //@   maypanic
 //@   track destination.*
 //@   ensures [the-last-window-is-closed-and-the-completion-delivered-in-one-step|C05,C20] heldat(muEmit, destination.ANY) && called(destination.CompleteWithContext)
@@ -1410,6 +1444,7 @@ package ro
 //@   props C05 C20
 //@   binds muEmit destination
 //@   calls Lock Unlock fn:flush
+//@   params ctx value
 //@   maypanic
 //@   track destination.*
 //@   ensures [a-tick-swaps-the-window-under-the-emit-lock|C05,C20] heldat(muEmit, destination.ANY)
@@ -1418,6 +1453,7 @@ package ro
 //@   props C05 C20
 //@   binds muEmit destination
 //@   calls ErrorWithContext Lock Unlock fn:flush
+//@   params ctx err
 //@   maypanic
 //@   track destination.*
 //@   ensures [the-last-window-is-closed-and-the-error-delivered-in-one-step|C05,C20] heldat(muEmit, destination.ANY) && called(destination.ErrorWithContext)
@@ -1426,6 +1462,7 @@ package ro
 //@   props C05 C20
 //@   binds muEmit destination
 //@   calls CompleteWithContext Lock Unlock fn:flush
+//@   params ctx
 //@   maypanic
 //@   track destination.*
 //@   ensures [the-last-window-is-closed-and-the-completion-delivered-in-one-step|C05,C20] heldat(muEmit, destination.ANY) && called(destination.CompleteWithContext)
